@@ -5,6 +5,7 @@ use crate::plangen::{SetupOpts, Weights, plan_strategy};
 use crate::props::common::{base_report, run_plan};
 use crate::runner::{Args, CaseReport, Failure, Mode, RunPlan, Spec, Tier, drive, set_last_trace};
 use crate::world::{Plan, Regime};
+use proptest::prelude::*;
 
 pub fn exec(plan: &Plan, mode: Mode) -> Result<CaseReport, Failure> {
     let mut obs = MirrorObserver::default();
@@ -49,7 +50,7 @@ pub fn main(args: &Args) -> i32 {
     let spec = Spec {
         id: "C08",
         level: "exploration",
-        rule: "plans rich in group-data updates (name, description, admins, relays, image fields, Nostr-id rotation), merges, clears, leaves, races and restarts; after every API call the acting client's record (epoch, name, description, admins, image fields, Nostr group id) and relay set are compared with its MLS state; 45 % of the worlds carry a second live group on some of the same clients (messages, self-updates, renames, Nostr-id rotations and relay changes there): every event must be stored in the group whose current Nostr group id it carries (also after that id rotated), no event or call of one group may change the other group's fingerprint (checked around every delivery, incl. rollbacks), events re-tagged with the other group's id are refused without effect, and the second group's record mirrors its MLS state too; non-trivial = a call that changed the MLS epoch or the extension; distinct = distinct plans".into(),
+        rule: "plans rich in group-data updates (name, description, admins, relays, image fields, Nostr-id rotation), merges, clears, leaves, races and restarts; after every API call the acting client's record (epoch, name, description, admins, image fields, Nostr group id) and relay set are compared with its MLS state; 45 % of the worlds carry a second live group on some of the same clients (messages, self-updates, renames, Nostr-id rotations and relay changes there): every event must be stored in the group whose current Nostr group id it carries (also after that id rotated), no event or call of one group may change the other group's fingerprint (checked around every delivery, incl. rollbacks), events re-tagged with the other group's id are refused without effect, and the second group's record mirrors its MLS state too; an eighth of the histories start with a directed prelude (a message of the losing branch of a commit race is also posted into the second group, then the race is resolved by rollback); non-trivial = a call that changed the MLS epoch or the extension; distinct = distinct plans".into(),
         assumptions: vec!["only groups in state Active are judged".into()],
         min_nontrivial: 20,
         max_shrink_iters: 300,
@@ -59,7 +60,20 @@ pub fn main(args: &Args) -> i32 {
         args,
         spec,
         RunPlan { cases, workers: 16 },
-        || plan_strategy(&opts, &weights, len.clone()),
+        || {
+            // an eighth of the histories start with a directed prelude: three SQLite clients in
+            // both groups; a message sent on the branch that will lose a commit race is also
+            // posted into the second group (same message id there); then the better commit
+            // arrives and the main group rolls back - the second group must not notice
+            (plan_strategy(&opts, &weights, len.clone()), 0u8..8, any::<bool>())
+                .prop_map(|(mut p, roll, sql)| {
+                    if roll == 0 {
+                        crate::plangen::crosspost_rollback_prelude(&mut p, sql);
+                    }
+                    p
+                })
+                .boxed()
+        },
         exec,
     )
 }
